@@ -10,7 +10,7 @@ PROPERTY_ID = "C02"
 LEVEL = "exploration"
 RULE = (
     "Hypothesis draws 1-3 functions with signatures from the exhaustive set of <=4-parameter signatures (positional-only, "
-    "positional-or-keyword, *args, keyword-only, **kwargs, with/without defaults), carriers plain function and bound methods "
+    "positional-or-keyword, *args, keyword-only, **kwargs, with/without defaults), carriers plain function, async function, functools.partial (two partials of one function with different bound values) and bound methods "
     "of two instances with different state, per-function ignore lists, compress in {False, True, 1, 9}, and a history of up "
     "to 25 steps over a small bank of argument vectors drawn from a pool of near-colliding values (1/1.0/True/'1'/b'1'/(1,)/"
     "[1]/{1}/frozenset, dicts and sets built in drawn insertion orders, ...): cached call in a drawn spelling (how many "
@@ -23,7 +23,7 @@ RULE = (
 )
 ASSUMPTIONS = [
     "functions are pure and named; lambdas and closures are outside the domain (documented)",
-    "functools.partial and async carriers are not generated in this version (see DESIGN.md residuals)",
+    "functools.partial carriers bind the first positional parameter; ignore lists cannot apply to them (documented)",
     "ignored parameters do not influence the function's value (that is what ignoring means)",
 ]
 SHARDS = {"quick": 8, "thorough": 16}
@@ -119,8 +119,12 @@ def run_case(spec):
     for r in records:
         if "value" in r:
             classes.append("op=" + r["op"])
-            if r["key"][0] != "f":
+            if r["key"][0] in ("mA", "mB"):
                 classes.append("bound-method")
+            elif r["key"][0] == "as":
+                classes.append("async-function")
+            elif r["key"][0] in ("pA", "pB"):
+                classes.append("partial")
     return {"nontrivial": n_values >= 2 and _near_colliding(records), "classes": sorted(set(classes))}
 
 
